@@ -118,6 +118,7 @@ type WDerive struct {
 // ---------------------------------------------------------------- router
 
 type DgramRec struct {
+	Faults    []WFault // the faults applied to this datagram
 	Dir       int
 	Ord       int
 	SentNS    int64
@@ -301,6 +302,7 @@ func (w *World) SendPacket(p simnet.Packet) error {
 	copies := 1
 	var dupDelay time.Duration
 	damaged := false
+	rec.Faults = faults
 	for _, f := range faults {
 		w.Res.Fault(f.Kind)
 		rec.Fate += f.Kind + " "
